@@ -154,6 +154,7 @@ Print Assumptions c04_two_units_is_more_than_64s.
 
 Theorem c04_stamp_types : ts_bits = 16 /\ ts_of_head_bits = 16 /\ expire_arg_bits = 16.
 Proof. exact cv_ts_bits. Qed.
+Print Assumptions c04_stamp_types.
 
 (* the regenerated slow path: copy exactly the old entries, create and (on loss) delete exactly [block_num, expect) *)
 Theorem c04_slow_path_ranges : forall bn e, copy_bytes bn / 8 = bn /\ create_lo bn e = bn /\ create_hi bn e = e /\
@@ -167,6 +168,7 @@ Print Assumptions c04_qualified_tests.
 
 Theorem c04_element_loops : forall n, ctor_loop_hi n = n /\ dtor_loop_hi n = n /\ destroy_loop_hi n = n.
 Proof. intro n. destruct (cv_elem_loops n). repeat split; auto. Qed.
+Print Assumptions c04_element_loops.
 
 (* index arithmetic: static and dynamic block sizes agree; an index splits uniquely into (block, offset) *)
 Theorem c04_static_dynamic_agree : forall i b, 0 <= b ->
@@ -224,3 +226,4 @@ Print Assumptions c04_snapshot_publication.
 Theorem c04_cas_loser_sees_winner_table :
   has_acquire c04_cas_failure = true /\ has_release c04_cas_success = true /\ has_acquire c04_cas_success = true.
 Proof. vm_compute. repeat split; reflexivity. Qed.
+Print Assumptions c04_cas_loser_sees_winner_table.
